@@ -183,6 +183,7 @@ def generate(prop, seed, tier):
                 op["source"] = "misfixed"
         if kind == "fit_bad":
             op["source"] = "rejected"  # F2: data the estimator rejects
+            op["reject_how"] = S.pick(["negative", "negative", "nan", "inf"])
         scen["ops"].append(op)
     # bystanders: other live distribution objects of the same (or a sibling) class with a different
     # fixed specification, constructed / fitted at seeded points of the history (state shared
@@ -257,7 +258,12 @@ def _data(scen, op):
             truth[p] = min(max(truth[p] * f, lo), hi * 2) if truth[p] > 0 else truth[p] - (f if p not in scen["fixed"] else 0.3 * f)
     x = draw(fam, truth, op["n"], op["dseed"])
     if op["source"] == "rejected":
-        x = -np.abs(x) - 1.0  # negative values into a positive-support family -> scipy FitDataError
+        how = op.get("reject_how", "negative")
+        if how == "negative":
+            x = -np.abs(x) - 1.0  # negative values into a positive-support family -> scipy FitDataError
+        else:
+            x = x.copy()
+            x[len(x) // 3] = np.nan if how == "nan" else np.inf  # a gap marker left in the measurements
     return x
 
 
